@@ -346,7 +346,7 @@ pub fn respawn_fault_family(tier: Tier) -> Vec<(Sc, Vec<Bounds>)> {
 	}
 	// history after the failed respawn: two further operations (what the failure left behind —
 	// a "retry" flag, a stale timer — may only act on the second one, after an ordinary
-	// operation has brought the job back to a healthy running state), default schedule
+	// operation has brought the job back to a healthy running state), k <= 1
 	let hist: &[Op] = match tier {
 		Tier::Quick => &[Op::Start, Op::Stop, Op::Restart, Op::TryRestart, Op::TryGRestart],
 		Tier::Thorough => &[Op::Start, Op::Stop, Op::SigKill, Op::Restart, Op::TryRestart, Op::GRestart, Op::TryGRestart, Op::GStop],
@@ -359,7 +359,7 @@ pub fn respawn_fault_family(tier: Tier) -> Vec<(Sc, Vec<Bounds>)> {
 				let mut sc = Sc::base(one_sender(&s), r, 2);
 				sc.spawn_fail_at = Some(2);
 				sc.errh = true;
-				out.push((sc, both(0)));
+				out.push((sc, [both(0), both(1)].concat()));
 			}
 		}
 	}
